@@ -448,10 +448,17 @@ func (w *World) RandomOp(o HistOpts) {
 					// (same whole-token bucket): it must not be able to report
 					min := []int64{1_500_000, 2_300_001, 1_000_001}[w.pick(3)]
 					w.UpdateOracleParams(w.Gov, min)
-					u := w.AddActor(fmt.Sprintf("ms%d", len(w.Actors)), 50_000_000)
-					w.Delegate(u, w.Vals[0], min-1-int64(w.pick(300_000)))
-					w.CreateReporter(u, sdkmath.LegacyZeroDec(), 1_000_000)
-					w.Submit(u, w.currentCycleQuery(), hex32(uint64(1000+w.pick(5))))
+					below := min - 1 - int64(w.pick(300_000))
+					// a fresh account, funded by an ordinary transfer from a validator operator
+					op := w.Vals[0].Oper
+					if w.Bal(op.Addr).GTE(sdkmath.NewInt(1_000_000_000)) {
+						u := w.AddActor(fmt.Sprintf("ms%d", len(w.Actors)), 0)
+						if w.Send(&op, u, 50_000_000).Ok {
+							w.Delegate(u, w.Vals[0], below)
+							w.CreateReporter(u, sdkmath.LegacyZeroDec(), 1_000_000)
+							w.Submit(u, w.currentCycleQuery(), hex32(uint64(1000+w.pick(5))))
+						}
+					}
 				} else {
 					w.UpdateOracleParams(w.Gov, int64(1_000_000*(1+w.pick(3))))
 				}
